@@ -60,6 +60,38 @@ func normOpts(opts []Opt) {
 	}
 }
 
+// NormalizeEmbeddedV4 applies the DHCPv4 normalisations of the fixpoint property (C06) to every DHCPv4 message carried
+// inside the tree: names cut to their NUL-terminated capacity, a hardware address length beyond 16 clipped.
+func NormalizeEmbeddedV4(m *Msg) {
+	if m == nil {
+		return
+	}
+	var walk func(opts []Opt)
+	walk = func(opts []Opt) {
+		for i := range opts {
+			o := &opts[i]
+			walk(o.Sub)
+			if o.Msg != nil {
+				NormalizeEmbeddedV4(o.Msg)
+			}
+			if o.V4 != nil {
+				v := *o.V4
+				if len(v.SName) > 63 {
+					v.SName = v.SName[:63]
+				}
+				if len(v.File) > 127 {
+					v.File = v.File[:127]
+				}
+				if v.HLen > 16 {
+					v.HLen = 16
+				}
+				o.V4 = &v
+			}
+		}
+	}
+	walk(m.Opts)
+}
+
 // Diff returns "" when the two trees are equal, otherwise a path and a
 // description of the first difference. Label-bearing options are compared on
 // their names; when wire is true also on their wire bytes.
